@@ -590,7 +590,7 @@ def rule_R7(chk, unit, drv):
                 function=fn["full"], construct="flush once")
     # every flush task holds the lock of its block
     n += 1
-    loops = [s for s in C.walk_stmt(fn["body"]) if s.get("k") in ("For", "While") and
+    loops = [s for s in C.walk_stmt(fn["body"]) if s.get("k") in ("For", "While", "ForRange") and
              any(C.is_call(x, name="set_type") and x["a"] and C.strip_casts(x["a"][0]).get("n") ==
                  "TASKTYPE_FLUSH_CONTINUOUS_PHOTON_BUFFERS" for x in C.walk_stmt(s["body"]))]
     okk = len(loops) == 1
@@ -598,9 +598,18 @@ def rule_R7(chk, unit, drv):
     ikey = None
     if okk:
         lp = loops[0]
+        range_lock = None
         if lp.get("k") == "For" and lp.get("init") is not None and lp["init"].get("k") == "Decl":
             iv = lp["init"]["d"][0]
             ikey = ("local", iv["id"], iv["n"])
+        elif lp.get("k") == "ForRange":
+            # a range-for over the block locks with a counter stepped alongside: the element IS the lock of block `counter`
+            stepped = [C.strip_casts(x["x"]) for x in C.walk_stmt(lp["body"])
+                       if x.get("k") == "Un" and x.get("op") in ("pre++", "post++") and C.strip_casts(x["x"]).get("k") == "Ref"]
+            ids_ = {x.get("id") for x in stepped}
+            if len(ids_) == 1 and "source_lock" in C.pretty(lp.get("range")) and isinstance(lp.get("var"), dict):
+                ikey = ("local", stepped[0]["id"], stepped[0]["n"])
+                range_lock = ("local", lp["var"].get("id"), lp["var"].get("n"))
         else:
             # the counter of a while loop: the local compared in the condition and stepped in the body
             cnd_refs = [x for x in C.walk(lp["c"]) if x.get("k") == "Ref" and "id" in x] if lp.get("c") is not None else []
@@ -615,7 +624,18 @@ def rule_R7(chk, unit, drv):
         sg = [x for x in C.walk_stmt(lp["body"]) if C.is_call(x, name="set_subgrid", cls="Task")]
         dep = [x for x in C.walk_stmt(lp["body"]) if C.is_call(x, name="set_dependency", cls="Task")]
         okk = len(sg) == 1 and len(dep) == 1 and C.ref_key(sg[0]["a"][0]) == ikey and \
-            any(C.ref_key(y) == ikey for y in C.walk(dep[0]["a"][0])) and "source_lock" in C.pretty(dep[0]["a"][0])
+            ((any(C.ref_key(y) == ikey for y in C.walk(dep[0]["a"][0])) and "source_lock" in C.pretty(dep[0]["a"][0])) or
+             (range_lock is not None and any(C.ref_key(y) == range_lock for y in C.walk(dep[0]["a"][0]))))
+        if okk and range_lock is not None:
+            # the counter must be stepped exactly once per element, after the task was given its block and its lock
+            steps = [x for x in C.walk_stmt(lp["body"]) if x.get("k") == "Un" and x.get("op") in ("pre++", "post++") and
+                     C.ref_key(x["x"]) == ikey]
+            uniq = []
+            for x in steps:
+                if not any(x is y for y in uniq):
+                    uniq.append(x)
+            okk = len(uniq) == 1 and uniq[0].get("l", 0) > max(sg[0].get("l", 0), dep[0].get("l", 0)) and \
+                not any(s2.get("k") in ("If", "Continue", "Break") for s2 in C.walk_stmt(lp["body"]))
         detail = "flush task for block %s has dependency %s: without its block's lock a flush can run while a source " \
                  "task of that block is still storing packets, which are then never launched" % (
                      C.pretty(sg[0]["a"][0]) if sg else "?", [C.pretty(d["a"][0]) for d in dep])
